@@ -147,6 +147,8 @@ structure CoreOps where
   iterMutNext : Iter → M (Option Nat × Iter) := fun it => pure it.next
   iterMutNextBack : Iter → M (Option Nat × Iter) := fun it => pure it.nextBack
   iterMutLen : Iter → M Nat := CircBuf.Iter.len
+  fillSpareWith : M Unit := CircBuf.fillSpareWith
+  fillWith : M Unit := CircBuf.fillWith
   drainNew : Bound → Bound → M Drain := CircBuf.Drain.new
   drainNext : Drain → M (Option Elem × Drain) := CircBuf.Drain.next
   drainNextBack : Drain → M (Option Elem × Drain) := CircBuf.Drain.nextBack
@@ -297,8 +299,8 @@ def runOp (o : CoreOps) (toks : List String) : M String := do
   | ["fill_spare", v] => match parseNat v with
     | some v => do let e ← newGiven v; fillSpare e; pure "-"
     | none => bad
-  | ["fill_with"] => do fillWith; pure "-"
-  | ["fill_spare_with"] => do fillSpareWith; pure "-"
+  | ["fill_with"] => do o.fillWith; pure "-"
+  | ["fill_spare_with"] => do o.fillSpareWith; pure "-"
   | ["extend", m] => match parseNat m with
     | some m => do extendIter m; pure "-"
     | none => bad
